@@ -392,7 +392,9 @@ func TestC18(t *testing.T) {
 			svcB, prodB, partB := fmt.Sprintf("%sB%d", svc, i), prod+"B", part+"B"
 			now := time.Now().Unix()
 			skc := now - int64(rng.Intn(100000)) - 120
-			ikc := skc + int64(rng.Intn(100))
+			// the documented format imposes no order on the two stamps: every writer truncates with its own precision and
+			// uses its own clock, so an intermediate key may carry an earlier stamp than the system key that wraps it
+			ikc := skc - 30 + int64(rng.Intn(130))
 			h := refimpl.NewHierarchy([]byte(master), partB, svcB, prodB, st.region, skc, ikc)
 			if rng.Intn(4) == 0 {
 				h.IKRecord.Revoked = true
@@ -420,6 +422,29 @@ func TestC18(t *testing.T) {
 			} else {
 				r.Count("reference_written_sdk_read", 1)
 				r.Distinct(fmt.Sprintf("B|%s|%s|%s|%s", st.name, svcB, prodB, partB))
+			}
+			// with the region suffix configured, records written in another region (global table) or before the suffix
+			// was switched on name _IK_partition_service_product with another or no suffix; their rows are in the table
+			if st.region != "" {
+				for _, region2 := range []string{"", "eu-west-1"} {
+					partR := part + "R" + region2
+					h2 := refimpl.NewHierarchy([]byte(master), partR, svcB, prodB, region2, skc, ikc)
+					if st.refPut(h2.SKID, skc, h2.SKRecord) != nil || st.refPut(h2.IKID, ikc, h2.IKRecord) != nil {
+						continue
+					}
+					var drr2 appencryption.DataRowRecord
+					if json.Unmarshal(refimpl.DRRJSON(h2.Encrypt(payload, now)), &drr2) != nil {
+						continue
+					}
+					r.Eval(1)
+					sr, _ := fb.GetSession(partR)
+					if out, err := sr.Decrypt(ctx, drr2); err != nil || !bytes.Equal(out, payload) {
+						fail("c18-sdk-cannot-read-reference", "region suffix %q configured: the SDK cannot decrypt a documented-shape record of the same partition written with suffix %q (IK id %q): %v", st.region, region2, h2.IKID, err)
+					} else {
+						r.Count("other_region_records_read", 1)
+					}
+					sr.Close()
+				}
 			}
 			// the metastore returns a reference-written revoked flag faithfully
 			if got, err := st.ms.Load(ctx, h.IKID, ikc); err != nil || got == nil || got.Revoked != h.IKRecord.Revoked {
